@@ -39,6 +39,42 @@ def unknown_calls(l, inside=False):
     return out
 
 
+def recovery_table(facts):
+    """from_error_recovery tabulated as a whole (from_parse_error opaque): {'ok': bool, 'fields': {name: label}, 'message': label, 'conv': label, 'detail': str}
+    - independent of whether the rewrite is written with Option::map and a closure, with `?` and a field assignment, or with a match"""
+    paths = Machine(facts, opaque_fns=[FPE], pure_fns=[FPE]).run(FER, [sym_ref("msg"), sym_ref("lookup"), Opaque("error_recovery", "lalrpop_util::ErrorRecovery")])
+    conv = ("call", FPE, ("lookup", "error_recovery.error"))
+    out = {"ok": False, "fields": {}, "message": None, "conv": conv, "detail": "", "paths": len(paths)}
+    some = none = 0
+    for p in paths:
+        cv = [v for l, v in p.conds if l == ("variant", conv)]
+        r = deref_val(p.ret)
+        if p.exit != "return" or p.effects or len(cv) != 1 or len(p.conds) != 1:
+            out["detail"] = "path with exit %s, effects %r, conditions %r" % (p.exit, [fmt_label(e[1:3]) for e in p.effects], [(fmt_label(l), v) for l, v in p.conds])
+            return out
+        if cv[0] == "None":
+            none += 1
+            if not (isinstance(r, AdtVal) and r.vname == "None"):
+                out["detail"] = "no converted diagnostic but the result is %r" % (r,)
+                return out
+        else:
+            some += 1
+            d = deref_val(r.fields[0].val) if isinstance(r, AdtVal) and r.vname == "Some" and 0 in r.fields else None
+            if not isinstance(d, AdtVal):
+                out["detail"] = "a converted diagnostic exists but the result is %r" % (r,)
+                return out
+            names = DIAG_FIELDS.get("names") or {0: "kind", 1: "range", 2: "message", 3: "context_message", 4: "hint", 5: "related_infos"}
+            base = ("field", conv, "Some.0")
+            for i, nm in names.items():
+                out["fields"][nm] = lab(d.fields[i].val) if i in d.fields else (join_label(d.label, nm) if d.label is not None else None)
+            out["message"] = out["fields"].get("message")
+            out["base"] = base
+    out["ok"] = some == 1 and none == 1
+    if not out["ok"]:
+        out["detail"] = "%d paths with / %d without a converted diagnostic" % (some, none)
+    return out
+
+
 def run(ctx, rep):
     facts = ctx.mir
     rep.rule("A13", "slice coverage: for every length n in 0..%d the returned sentence of expected_token_str(v) is built from every element v[0..n) exactly once and from nothing else that is dynamic (provenance of the format arguments, join and index expressions)" % MAXLEN)
@@ -147,26 +183,18 @@ def run(ctx, rep):
     rep.check(not named and bool(lits), "F5", "C20|F5|expected_token_str|literals", cfg.where(fn), "the fixed text of expected_token_str must not name a terminal itself; found %r in %r" % (named, lits[:6]), sample={"literals": sorted(set(lits))})
     # ---- F3
     fe = facts.fn(FER)
-    clos = facts.closures_of(FER)
-    ok = False
+    tb = recovery_table(facts)
     det = None
-    if len(clos) == 1:
-        from closures import run_closure
-        d = struct_val(facts, DIAG, "d")
-        cp, _ = run_closure(facts, clos[0], {"msg": sym_ref("msg")}, [d])
-        if len(cp) == 1 and isinstance(cp[0].ret, AdtVal):
-            r = cp[0].ret
-            msg = lab(r.fields[2].val)
-            det = fmt_label(msg)
-            others = [lab(r.fields[i].val) for i in (0, 1, 3, 4, 5)]
-            ok = isinstance(msg, tuple) and msg[0] == "fmt" and ("fmtarg", "display", "d.message") in msg[2] and ("fmtarg", "display", "msg") in msg[2] \
-                and others == ["d.kind", "d.range", "d.context_message", "d.hint", "d.related_infos"]
-    paths = Machine(facts, opaque_fns=[FPE], pure_fns=[]).run(FER, [sym_ref("msg"), sym_ref("lookup"), Opaque("error_recovery", "lalrpop_util::ErrorRecovery")])
-    percall = [[e for e in p.effects if e[0] == "call" and e[1] == FPE] for p in paths]
-    calls = [c for pc in percall for c in pc]
-    ok2 = bool(paths) and all(len(pc) == 1 and pc[0][2] == ("lookup", "error_recovery.error") for pc in percall)
-    rep.check(ok and ok2, "F3", "C20|F3", cfg.where(fe), "from_error_recovery must convert error_recovery.error with from_parse_error and keep kind / range / hints, prefixing the whole message; extracted message %r, conversion call %r" % (
-        det, [fmt_label(c[2]) for c in calls]), sample={"message": det})
+    ok = tb["ok"]
+    if ok:
+        base = tb["base"]
+        msg = tb["message"]
+        det = fmt_label(msg)
+        keep = all(tb["fields"].get(nm) in (("field", base, nm), join_label(base, nm)) for nm in ("kind", "range", "context_message", "hint", "related_infos"))
+        ok = keep and isinstance(msg, tuple) and msg[0] == "fmt" and ("fmtarg", "display", "msg") in msg[2] and \
+            any(a in msg[2] for a in (("fmtarg", "display", ("field", base, "message")), ("fmtarg", "display", join_label(base, "message"))))
+    rep.check(ok, "F3", "C20|F3", cfg.where(fe), "from_error_recovery must convert error_recovery.error with from_parse_error and keep kind / range / hints, prefixing the whole message; extracted message %r, %s" % (
+        det, tb["detail"] or ("fields %r" % dict((k, fmt_label(v)[:80]) for k, v in tb["fields"].items()))), sample={"message": det})
     # ---- F4 (MIR part): add_content's Err branch converts with from_parse_error; recovery actions are checked in the grammar rules (C03 S1)
     pa = Machine(facts, opaque_fns=[FPE]).run("parser::Parser::<ID>::add_content", [sym_ref("self", mut=True), Opaque("id"), sym_ref("content")])
     errp = [p for p in pa if any(v == "Err" for l, v in p.conds)]
